@@ -15,6 +15,7 @@ import (
 	"log/slog"
 	"os"
 	"path/filepath"
+	"runtime"
 	"runtime/debug"
 	"sort"
 	"strconv"
@@ -254,6 +255,9 @@ type Sub[C any] struct {
 	Name string
 	Rule string
 	Run  func(c C, o *Obs) *Failure
+	// Timeout > 0 makes a case that does not return within it a failure ("hang:<name>") carrying the
+	// stacks of the goroutines parked inside reservoir code, instead of a test-binary timeout.
+	Timeout time.Duration
 }
 
 // Register makes the sub-check known to the replay dispatcher and returns it.
@@ -275,6 +279,42 @@ func Register[C any](name, rule string, run func(c C, o *Obs) *Failure) *Sub[C] 
 // safeRun converts a panic that escapes the runner (i.e. a panic in code under
 // test on the calling goroutine that the runner did not itself classify) into a failure.
 func (s *Sub[C]) safeRun(c C, o *Obs) (f *Failure) {
+	if s.Timeout <= 0 {
+		return s.runRecover(c, o)
+	}
+	done := make(chan *Failure, 1)
+	lo := &Obs{}
+	go func() { done <- s.runRecover(c, lo) }()
+	select {
+	case f := <-done:
+		*o = *lo
+		return f
+	case <-time.After(s.Timeout):
+		o.NonTrivial = true
+		return &Failure{Sig: "hang:" + s.Name, What: fmt.Sprintf("the case did not finish within %v; goroutines inside reservoir code:\n%s", s.Timeout, reservoirStacks())}
+	}
+}
+
+func reservoirStacks() string {
+	buf := make([]byte, 4<<20)
+	n := runtime.Stack(buf, true)
+	var keep []string
+	for _, g := range strings.Split(string(buf[:n]), "\n\n") {
+		if strings.Contains(g, "reservoir/") && !strings.Contains(g, "reservoirStacks") {
+			lines := strings.Split(g, "\n")
+			if len(lines) > 14 {
+				lines = lines[:14]
+			}
+			keep = append(keep, strings.Join(lines, "\n"))
+		}
+		if len(keep) >= 6 {
+			break
+		}
+	}
+	return strings.Join(keep, "\n\n")
+}
+
+func (s *Sub[C]) runRecover(c C, o *Obs) (f *Failure) {
 	defer func() {
 		if r := recover(); r != nil {
 			f = &Failure{Sig: "panic:" + s.Name, What: fmt.Sprintf("panic: %v\n%s", r, trimStack(debug.Stack()))}
@@ -525,4 +565,10 @@ func replayPath(p string) (*Failure, error) {
 		return nil, fmt.Errorf("no sub-check %q registered in this package", rf.Sub)
 	}
 	return r(rf.Case)
+}
+
+// WithTimeout sets the per-case watchdog and returns the sub-check.
+func (s *Sub[C]) WithTimeout(d time.Duration) *Sub[C] {
+	s.Timeout = d
+	return s
 }
